@@ -22,13 +22,15 @@ namespace Bif
 /-! ## 1. Positions: substring, sublist, insert before, remove -/
 
 /-- The index arithmetic of `substring` computes the specified characters, in both integer
-modes, whenever `string length + length` fits `usize`. -/
+modes, for every start position and every length ≥ 1 (`checked_add`: a sum beyond `usize` is
+"more characters than remain", null). -/
 theorem substring_index_spec (m : IntMode) (cs : List Char) (st : Int) (count : Option Nat)
-    (h : ∀ c, count = some c → 1 ≤ c ∧ cs.length + c < Usz.modulus) :
+    (hL : cs.length < Usz.modulus) (h : ∀ c, count = some c → 1 ≤ c) :
     substringAt m cs st count = .ok (Spec.substringChars cs st count) :=
-  substringAt_spec m cs st count h
+  substringAt_spec m cs st count hL h
 
-example : ∀ c, (some 2 : Option Nat) = some c → 1 ≤ c ∧ ("a🙏c".toList).length + c < Usz.modulus := by
+example : ("a🙏c".toList).length < Usz.modulus ∧ ∀ c, (some 18446744073709551615 : Option Nat) = some c → 1 ≤ c := by
+  refine ⟨by decide, ?_⟩
   intro c h; injection h with h; subst h; decide
 
 /-- `sublist(list, position)` -/
@@ -37,35 +39,14 @@ theorem sublist2_index_spec (m : IntMode) (items : List Value) (b : Bool) (i : N
     sublist2At m items (b, i) = .ok (Spec.sublistAt items (posInt (b, i)) none) :=
   sublist2At_spec m items b i hi hi2 hL
 
--- FULL STATEMENT (not provable of the current code, findings F5 / F5b):
---   ∀ m items b i n, 1 ≤ i → i < 2^64 → items.length < 2^64 →
---     sublist3At m items (b, i) n = .ok (Spec.sublistAt items (posInt (b, i)) (some n))
-/-- `sublist(list, position, length)` on the tuples whose index arithmetic stays inside `usize` -/
-theorem sublist3_index_spec_partial (m : IntMode) (items : List Value) (b : Bool) (i n : Nat)
-    (hi : 1 ≤ i) (hi2 : i < Usz.modulus) (hL : items.length < Usz.modulus)
-    (hs : Sublist3Safe m items.length (b, i) n) :
+/-- `sublist(list, position, length)`: every position and every length (a negative position
+before the first item, or a length beyond `usize`, is null) -/
+theorem sublist3_index_spec (m : IntMode) (items : List Value) (b : Bool) (i n : Nat)
+    (hi : 1 ≤ i) (hi2 : i < Usz.modulus) (hL : items.length < Usz.modulus) :
     sublist3At m items (b, i) n = .ok (Spec.sublistAt items (posInt (b, i)) (some n)) :=
-  sublist3At_spec m items b i n hi hi2 hL hs
+  sublist3At_spec m items b i n hi hi2 hL
 
-example : Sublist3Safe .checked 3 (true, 2) 1 := by
-  refine ⟨by decide, by decide, fun _ _ => by decide⟩
-
-/-- F5: `sublist([1,2,3], -5, 1)` panics in a build with overflow checks
-(`items.len() - position`, `core.rs:1064`) … -/
-theorem sublist3_counterexample_checked :
-    sublist3At .checked [.null, .null, .null] (true, 5) 1
-      = .panic "core.rs:1064 items.len() - position" := by
-  rfl
-
-/-- … F5b: `sublist([1,2,3], 2, 18446744073709551615)` panics in both builds: with overflow
-checks at `first + length` (`core.rs:1056`), without them `last` wraps to 0 and the slice
-`items[1..0]` panics (`core.rs:1058`). -/
-theorem sublist3_counterexample_both_modes :
-    sublist3At .checked [.null, .null, .null] (false, 2) 18446744073709551615
-        = .panic "core.rs:1056/1065 first + length"
-      ∧ sublist3At .wrapping [.null, .null, .null] (false, 2) 18446744073709551615
-        = .panic "core.rs:1058/1067 items[first..last]" := by
-  constructor <;> rfl
+example : (1 : Nat) ≤ 5 ∧ 5 < Usz.modulus ∧ ([Value.null, .null, .null]).length < Usz.modulus := by decide
 
 /-- `insert before(list, position, newItem)` -/
 theorem insert_before_index_spec (m : IntMode) (items : List Value) (b : Bool) (i : Nat) (x : Value)
@@ -148,10 +129,10 @@ theorem core_remove_spec (m : IntMode) (a b : Value) (hb : Plain b) (hL : lenOf 
     | _ => rfl
   | _ => rfl
 
--- FULL STATEMENT (not provable of the current code, findings F5, F5b, F19):
+-- FULL STATEMENT (not provable of the current code, finding F19: `2.0` is not read as 2):
 --   ∀ m a b c, core_sublist3 m a b c = .ok (Spec.sublistV [a, b, c])
 theorem core_sublist3_spec_partial (m : IntMode) (a b c : Value) (hb : Plain b) (hc : PlainNat c)
-    (hL : lenOf a < Usz.modulus) (hs : safeArgs m "sublist3" [.v a, .v b, .v c] = true) :
+    (hL : lenOf a < Usz.modulus) :
     core_sublist3 m a b c = .ok (Spec.sublistV [a, b, c]) := by
   cases a with
   | list items =>
@@ -189,9 +170,8 @@ theorem core_sublist3_spec_partial (m : IntMode) (a b c : Value) (hb : Plain b) 
           cases hd : decodePos p with
           | some pos =>
             obtain ⟨h1, h2, h3⟩ := decodePos_sound hd
-            simp only [safeArgs, hd, hn, decide_eq_true_eq] at hs
             obtain ⟨b, i⟩ := pos
-            simp only [h1, sublist3At_spec m items b i n h2 h3 hL hs, listResult_ok, Option.bind_some]
+            simp only [h1, sublist3At_spec m items b i n h2 h3 hL, listResult_ok, Option.bind_some]
           | none =>
             obtain ⟨v, hv, hr⟩ := decodePos_none hb hd
             simp only [hv, Option.bind_some, Spec.sublistAt, startIndex_out_of_range hL hr, Spec.optV]
@@ -200,15 +180,15 @@ theorem core_sublist3_spec_partial (m : IntMode) (a b c : Value) (hb : Plain b) 
       simp only [core_sublist3, Spec.sublistV, Spec.natOfInt, none_bind', bind_none_right, Spec.optV]
   | _ => rfl
 
-example : safeArgs .checked "sublist3" [.v (.list [.null, .null]), .v (.num ⟨true, 2, 0⟩), .v (.num ⟨false, 1, 0⟩)] = true := by
-  decide
+example : Plain (.num ⟨true, 5, 0⟩) ∧ PlainNat (.num ⟨false, 18446744073709551615, 0⟩) := by
+  refine ⟨by unfold Plain; decide, by unfold PlainNat; decide⟩
 
--- FULL STATEMENT (not provable of the current code, findings F19, F20):
+-- FULL STATEMENT (not provable of the current code, finding F19: `2.0` is not read as 2):
 --   ∀ m a b c, core_substring m a b c = .ok (Spec.substringV [a, b, c])
 /-- `substring(string, start position, length)` on the whole argument space, for positions and
-lengths written without fraction digits and `string length + length` inside `usize`. -/
+lengths written without fraction digits. -/
 theorem core_substring_spec_partial (m : IntMode) (a b c : Value) (hb : Plain b) (hc : PlainNat c)
-    (hL : (lenOf a : Int) < (2 : Int) ^ 63) (hr : SubstringInRange a c) :
+    (hL : (lenOf a : Int) < (2 : Int) ^ 63) :
     core_substring m a b c = .ok (Spec.substringV [a, b, c]) := by
   cases a with
   | str s =>
@@ -234,10 +214,9 @@ theorem core_substring_spec_partial (m : IntMode) (a b c : Value) (hb : Plain b)
         cases c with
         | null =>
           simp only [core_substring, hst, Spec.substringV, Spec.intOf, hv, Option.bind_some]
-          rw [substringAt_spec m s.toList st none (by intro c h; cases h), strResult_ok]
+          rw [substringAt_spec m s.toList st none hLm (by intro c h; cases h), strResult_ok]
         | num len =>
           simp only [PlainNat] at hc
-          simp only [SubstringInRange] at hr
           obtain ⟨hlow, hhigh⟩ := substringCount_plain hc.1 hc.2 _ rfl
           simp only [core_substring, hst, Spec.substringV, Spec.intOf, hv, Option.bind_some]
           by_cases hone : len.scoeff * 10 ^ len.exp.toNat < 1
@@ -252,11 +231,11 @@ theorem core_substring_spec_partial (m : IntMode) (a b c : Value) (hb : Plain b)
             rcases h2 with ⟨h2, _⟩ | ⟨h2, hbig⟩
             · rw [h2]
               simp only
-              rw [substringAt_spec m s.toList st (some _) ?_, strResult_ok]
+              rw [substringAt_spec m s.toList st (some _) hLm ?_, strResult_ok]
               intro k hk
               injection hk with hk
               subst hk
-              exact ⟨by omega, hr _ h2⟩
+              omega
             · rw [h2]
               have hbig' : s.toList.length < (len.scoeff * 10 ^ len.exp.toNat).toNat := by omega
               simp only [substringChars_big hbig', Spec.optV]
@@ -266,11 +245,8 @@ theorem core_substring_spec_partial (m : IntMode) (a b c : Value) (hb : Plain b)
       cases c <;> simp only [core_substring, Spec.substringV, Spec.intOf, none_bind', Spec.optV]
   | _ => cases c <;> rfl
 
-example : SubstringInRange (.str "abc") (.num ⟨false, 2, 0⟩) ∧ PlainNat (.num ⟨false, 2, 0⟩) ∧ Plain (.num ⟨true, 1, 0⟩) := by
-  refine ⟨?_, by unfold PlainNat; decide, by unfold Plain; decide⟩
-  intro k hk
-  have : substringCount ⟨false, 2, 0⟩ = some 2 := by decide
-  rw [this] at hk; injection hk with hk; subst hk; decide
+example : PlainNat (.num ⟨false, 2, 0⟩) ∧ Plain (.num ⟨true, 1, 0⟩) := by
+  refine ⟨by unfold PlainNat; decide, by unfold Plain; decide⟩
 
 /-! ## 2. Strings, lists, aggregates: the whole argument space -/
 
@@ -413,24 +389,13 @@ theorem core_min_spec (xs : List Value) : core_min xs = .ok (Spec.minV xs) := by
     case num d => cases Spec.allNums xs <;> simp
     case str d => cases Spec.allStrs xs <;> simp
 
--- FULL STATEMENT (not provable of the current code, finding F22):
---   ∀ xs, core_max xs = .ok (Spec.maxV xs)
-theorem core_max_spec_partial (xs : List Value) (h : NoNull xs) : core_max xs = .ok (Spec.maxV xs) := by
+theorem core_max_spec (xs : List Value) : core_max xs = .ok (Spec.maxV xs) := by
   cases xs with
   | nil => rfl
   | cons x xs =>
-    have h' : NoNull xs := fun v hv => h v (List.mem_cons_of_mem _ hv)
-    cases x <;> simp [core_max, Spec.maxV, Spec.extremum, Spec.allNums, Spec.allStrs, maxNumLoop_spec _ h', maxStrLoop_spec _ h']
+    cases x <;> simp [core_max, Spec.maxV, Spec.extremum, Spec.allNums, Spec.allStrs, maxNumLoop_spec, maxStrLoop_spec]
     case num d => cases Spec.allNums xs <;> simp
     case str d => cases Spec.allStrs xs <;> simp
-
-example : NoNull [.num ⟨false, 1, 0⟩, .str "a"] := by
-  intro v hv; simp at hv; rcases hv with rfl | rfl <;> simp
-
-theorem core_max_counterexample :
-    core_max [.num ⟨false, 1, 0⟩, .null, .num ⟨false, 3, 0⟩] = .ok (.num ⟨false, 3, 0⟩)
-      ∧ Spec.maxV [.num ⟨false, 1, 0⟩, .null, .num ⟨false, 3, 0⟩] = .null := by
-  constructor <;> rfl
 
 theorem core_sum_spec (xs : List Value) : core_sum xs = .ok (Spec.sumV xs) := by
   cases xs with
@@ -623,15 +588,22 @@ theorem offending_pinned :
   decide
 
 theorem offending_everywhere_pinned :
-    offendingEverywhere = [("list contains", ["list", "element"]), ("mean", ["list"])] := by
+    offendingEverywhere = [("list contains", ["list", "element"])] := by
   decide
 
 def n1 (k : Nat) : Value := .num ⟨false, k, 0⟩
 
+-- FULL STATEMENT (not provable of the current code, findings F2b, F2c):
+--   ∀ core sig args, sig ∈ Spec.signatures → sig.required ≤ args.length → args.length ≤ sig.params.length →
+--     callNamed core sig.name (bindNames sig.params args) = callPositional core sig.name args
+/-- F2c: `all(list: true)` is null, `all(true)` is true (the named arm accepts only a list);
+F2b: `list contains(list: [1], element: 1)` is null (the code's parameter name is `match`). -/
 theorem named_eq_positional_counterexample :
-    callNamed (core .checked) "mean" (bindNames ["list"] [.list [n1 1, n1 2, n1 6]]) = some (.ok (n1 2))
-      ∧ callPositional (core .checked) "mean" [.list [n1 1, n1 2, n1 6]] = some (.ok (n1 3)) := by
-  constructor <;> rfl
+    callNamed (core .checked) "all" (bindNames ["list"] [.bool true]) = some (.ok .null)
+      ∧ callPositional (core .checked) "all" [.bool true] = some (.ok (.bool true))
+      ∧ callNamed (core .checked) "list contains" (bindNames ["list", "element"] [.list [n1 1], n1 1]) = some (.ok .null)
+      ∧ callPositional (core .checked) "list contains" [.list [n1 1], n1 1] = some (.ok (.bool true)) := by
+  refine ⟨?_, ?_, ?_, ?_⟩ <;> rfl
 
 theorem bif_resolution (scope : Scope) (name : String) :
     (scope.getEntry name = none → resolveName names scope name = (if names.contains name then .bif name else .null))
@@ -673,40 +645,30 @@ theorem positional_dispatch_no_panic (core : Core) (row : PosRow) (hrow : row.sa
       | none => simp [hm] at this
       | some cargs => exact ⟨c.fn, cargs, by simp only [hm]⟩
 
--- FULL STATEMENT (not provable of the current code, findings F5, F5b, F20):
---   ∀ m fn args, (∀ a ∈ args, a.lenOk) → NoPanic (core m fn args)
-/-- No modelled built-in function panics, in either integer mode, on any argument tuple —
-outside the two index computations `safeArgs` singles out. -/
-theorem bif_no_panic_partial (m : IntMode) (fn : String) (args : List CoreArg)
-    (hlen : ∀ a ∈ args, CoreArg.lenOk a) (hsafe : safeArgs m fn args = true) :
-    NoPanic (core m fn args) := by
+/-- No modelled built-in function panics, in either integer mode, on any argument tuple
+(`lenOk`: list and string lengths fit `usize`, as every Rust `Vec` / `String` does). -/
+theorem bif_no_panic (m : IntMode) (fn : String) (args : List CoreArg)
+    (hlen : ∀ a ∈ args, CoreArg.lenOk a) : NoPanic (core m fn args) := by
   unfold core
   cases h : coreTable.lookup fn with
   | none => exact noPanic_none
-  | some f => exact coreTable_noPanic (fn, f) (lookup_mem _ _ _ h) m args hlen hsafe
+  | some f => exact coreTable_noPanic (fn, f) (lookup_mem _ _ _ h) m args hlen
 
-example : safeArgs .wrapping "substring" [.v (.str "abc"), .v (.num ⟨false, 2, 0⟩), .v (.num ⟨false, 18446744073709551615, 0⟩)] = true := by
-  decide
+example : ∀ a ∈ [CoreArg.v (.list [n1 1, n1 2, n1 3]), .v (.num ⟨true, 5, 0⟩), .v (n1 18446744073709551615)], CoreArg.lenOk a := by
+  intro a ha
+  simp only [List.mem_cons, List.mem_nil_iff, or_false] at ha
+  rcases ha with rfl | rfl | rfl
+  · show ([n1 1, n1 2, n1 3] : List Value).length < Usz.modulus
+    decide
+  · trivial
+  · trivial
 
-/-- The three panics of the current code, through the table of `core::` functions:
-`sublist([1,2,3], -5, 1)` with overflow checks (F5), `sublist([1,2,3], 2, 18446744073709551615)`
-without them (F5b; with them `first + length` panics), `substring("abc", 2, 18446744073709551615)`
-with overflow checks (F20). -/
-theorem bif_no_panic_counterexample :
-    core .checked "sublist3" [.v (.list [n1 1, n1 2, n1 3]), .v (.num ⟨true, 5, 0⟩), .v (n1 1)]
-        = some (.panic "core.rs:1064 items.len() - position")
-      ∧ core .wrapping "sublist3" [.v (.list [n1 1, n1 2, n1 3]), .v (n1 2), .v (n1 18446744073709551615)]
-        = some (.panic "core.rs:1058/1067 items[first..last]")
-      ∧ core .checked "substring" [.v (.str "abc"), .v (n1 2), .v (n1 18446744073709551615)]
-        = some (.panic "core.rs:1101 index + count") := by
-  refine ⟨?_, ?_, ?_⟩ <;> rfl
-
-/-- … and what the build without overflow checks returns instead of the third panic: `"bc"`,
-where the specification gives null (more characters requested than remain). -/
-theorem substring_wrapping_counterexample :
-    substringAt .wrapping ['a', 'b', 'c'] 2 (some 18446744073709551615) = .ok (some ['b', 'c'])
-      ∧ Spec.substringChars ['a', 'b', 'c'] 2 (some 18446744073709551615) = none := by
-  constructor <;> rfl
+/-- The calls that panicked before the repairs df73e95 / a0759b1 are null now, in both modes. -/
+theorem former_panics_are_null (m : IntMode) :
+    core m "sublist3" [.v (.list [n1 1, n1 2, n1 3]), .v (.num ⟨true, 5, 0⟩), .v (n1 1)] = some (.ok .null)
+      ∧ core m "sublist3" [.v (.list [n1 1, n1 2, n1 3]), .v (n1 2), .v (n1 18446744073709551615)] = some (.ok .null)
+      ∧ core m "substring" [.v (.str "abc"), .v (n1 2), .v (n1 18446744073709551615)] = some (.ok .null) := by
+  cases m <;> refine ⟨?_, ?_, ?_⟩ <;> rfl
 
 end Bif
 end Dmn
